@@ -19,9 +19,10 @@ static fv_script_t *fv_cur_script; static int fv_cur_pos;
 static int *fv_wraps; static int fv_nwraps, fv_wrappos;
 static FILE *fv_files[FV_MAXSRC]; static long fv_off[FV_MAXSRC];  /* one stdio stream per source */
 static long fv_read_calls = 0, fv_read_bytes = 0;
-static jmp_buf fv_jmp; static int fv_in_run = 0;
+static jmp_buf fv_jmp; static int fv_in_run = 0, fv_eof_seen = 0;
 static long fv_max_events = 200000, fv_events = 0;
-int fv_bol_needed = 0, fv_has_lineno = 0, fv_bufsize = 16384;
+int fv_bol_needed = 0, fv_has_lineno = 0, fv_bufsize = 16384, fv_default_rule = 0;
+long fv_last_leng = 0, fv_cur_prefix = 0; int fv_more_set = 0;
 static int *fv_readerr; static int fv_nreaderr;           /* read call indices that fail */
 static long fv_alloc_fail_at = -1, fv_alloc_count = 0;    /* k-th allocation request fails */
 static long fv_live = 0, fv_bad_free = 0;
@@ -37,7 +38,8 @@ static void fv_hex(const char *t, long n) {
 void fv_log_match(int rule, const char *text, long leng, long lineno, int start, int atbol) {
     fv_event();
     printf("m %d ", rule); fv_hex(text, leng); printf(" %ld %d %d\n", lineno, start, atbol);
-    /* an action execution begins: select its script */
+    /* an action execution begins: select its script (the default rule's ECHO takes none) */
+    if (fv_default_rule) { fv_default_rule = 0; fv_cur_script = NULL; fv_cur_pos = 0; return; }
     if (fv_act_counter < fv_nacts) { fv_cur_script = &fv_acts[fv_act_counter]; } else fv_cur_script = NULL;
     fv_cur_pos = 0; fv_act_counter++;
 }
@@ -265,7 +267,8 @@ int main(int argc, char **argv) {
         for (i = 0; i < fv_main_script.n; i++) {
             fv_op_t o = fv_main_script.ops[i];
             switch (o.op) {
-            case FV_OP_LEX: { int r = yylex(FV_TOP_A1); fv_event(); printf("ret %d\n", r); } break;
+            case FV_OP_LEX: if (fv_eof_seen && o.a == 0) break;   /* lex:1 = call again even after end of input */
+                { int r = yylex(FV_TOP_A1); fv_event(); printf("ret %d\n", r); fv_eof_seen = (r == 0); } break;
             case FV_OP_DESTROY: { int r = yylex_destroy(FV_TOP_A1); printf("destroy %d\n", r);
 #ifdef FV_BACKEND_R
                 if (yylex_init(&fv_scanner) != 0) { printf("initfail %d\n", errno); return 0; }
@@ -275,7 +278,7 @@ int main(int argc, char **argv) {
             case FV_OP_INPUT: { int c_ = yyinput(FV_TOP_A1); fv_log_int("in", c_); } break;
             case FV_OP_UNPUT: yyunput((int) o.a); break;
             FV_COMMON_OPS(o.a, o.b)
-            default: fv_buffer_op(o.op, o.a, o.b FV_TOP_AL); break;
+            default: fv_buffer_op(o.op, o.a, o.b FV_TOP_AL); fv_eof_seen = 0; break;
             }
         }
     }
